@@ -554,9 +554,13 @@ func RunC1(rc *RunCtx, sc *C1) *C1Outcome {
 		// follow-up calls on the same client and connection (each with its own reply script)
 		for next := sc.Then; next != nil; next = next.Then {
 			cl.lock()
-			if !next.KeepStale {
-				cl.in.segs, cl.in.eof = nil, false // what the previous exchange left unread is gone (a real port is flushed / drained)
+			// what the previous exchange left unread is gone (a real port is flushed / drained) - unless the application
+			// connects again first: then it is gone exactly when the client really took a new connection (the old
+			// connection's late bytes stay on the old connection)
+			if !next.KeepStale && (next.Reconnect == 0 || sc.Kind == KSerial) {
+				cl.in.segs, cl.in.eof = nil, false
 			}
+			genBefore := gen
 			o := &C1Outcome{recFrom: len(cl.Rec)}
 			if hooks != nil {
 				o.hookFrom = len(hooks.recs)
@@ -574,6 +578,15 @@ func RunC1(rc *RunCtx, sc *C1) *C1Outcome {
 					closeClient()
 					o.ConnErr = connect()
 				}
+				if !next.KeepStale && next.Reconnect != 0 && gen != genBefore {
+					cl.lock()
+					cl.in.segs, cl.in.eof = nil, false
+					cl.unlock()
+				}
+			} else if !next.KeepStale && next.Reconnect != 0 {
+				cl.lock()
+				cl.in.segs, cl.in.eof = nil, false
+				cl.unlock()
 			}
 			t1 := s.Now()
 			o.Start = t1
